@@ -203,6 +203,8 @@ pub struct Connection {
     authentication_failures: u64,
     /// Why the connection was lost, if it has been
     error: Option<ConnectionError>,
+    /// Whether the application has been told that the connection was lost
+    lost_reported: bool,
     /// Identifies Data-space packet numbers to skip. Not used in earlier spaces.
     packet_number_filter: PacketNumberFilter,
 
@@ -328,6 +330,7 @@ impl Connection {
             timers: TimerTable::default(),
             authentication_failures: 0,
             error: None,
+            lost_reported: false,
             #[cfg(test)]
             packet_number_filter: match config.deterministic_packet_numbers {
                 false => PacketNumberFilter::new(&mut rng),
@@ -403,6 +406,7 @@ impl Connection {
         }
 
         if let Some(err) = self.error.take() {
+            self.lost_reported = true;
             return Some(Event::ConnectionLost { reason: err });
         }
 
@@ -2449,7 +2453,11 @@ impl Connection {
 
         // State transitions for error cases
         if let Err(conn_err) = result {
-            self.error = Some(conn_err.clone());
+            if !self.lost_reported {
+                // E.g. a stateless reset answering the CONNECTION_CLOSE we sent in response to the
+                // peer's close must not be reported as a second loss
+                self.error = Some(conn_err.clone());
+            }
             self.state = match conn_err {
                 ConnectionError::ApplicationClosed(reason) => State::closed(reason),
                 ConnectionError::ConnectionClosed(reason) => State::closed(reason),
